@@ -954,6 +954,17 @@ Proof.
   destruct (object_to_file_ext true sched false ser) as [[r' o'] c']. split; reflexivity.
 Qed.
 
+(* ------------------------------------------------------------------ the open() requests *)
+
+(* reading: read-only, nothing created, truncated or appended, no other flag bit (blocking mode), no
+   mode argument; writing: write-only, created if absent, truncated, not appending, no other flag
+   bit, mode 0644 *)
+Theorem open_requests_as_documented : forall p,
+  from_file_request p = mkreq p (mkofl O_RDONLY false false false false) 0 None
+  /\ to_file_request p = mkreq p (mkofl O_WRONLY true true false false) 0 (Some (6 * 64 + 4 * 8 + 4))
+  /\ rq_other_bits (from_file_request p) = 0 /\ rq_other_bits (to_file_request p) = 0.
+Proof. intros p. repeat split. Qed.
+
 (* ------------------------------------------------------------------ non-vacuity *)
 
 (* "hello" = 104 101 108 108 111 *)
